@@ -241,11 +241,30 @@ func ruleLatencyStart(r *Run) {
 	hc := r.modelFunc("websocket.(*RealtimeHandler).HandleConnect")
 	if hc != nil {
 		okID, seen, got := true, false, ""
+		idVar := r.P.LookupField(pkgWS, "RealtimeHandler", "clientID")
 		paths := r.Paths(hc)
 		for pi := range paths {
 			p := &paths[pi]
 			r.at(p)
 			for _, ev := range p.Events {
+				// h.client = clientIdentity{id: …} (directly or from a builder): the part that plays the client id
+				if ev.Kind == EvAssign && len(ev.Lhs) == 1 && len(ev.Rhs) == 1 && idVar != nil {
+					if lit, lfn := r.P.compositeOfIn(ev.Fn, ev.Rhs[0]); lit != nil && lfn != nil {
+						for _, el := range lit.Elts {
+							kv, isKV := el.(*ast.KeyValueExpr)
+							if !isKV {
+								continue
+							}
+							if kid, isID := kv.Key.(*ast.Ident); isID && lfn.Info().Uses[kid] == types.Object(idVar) {
+								c := r.P.Canon(lfn, kv.Value)
+								seen = true
+								if !reClientIDHeader.MatchString(c) {
+									okID, got = false, c
+								}
+							}
+						}
+					}
+				}
 				if ev.Kind == EvAssign && len(ev.Lhs) == 1 && len(ev.Rhs) == 1 && r.P.Canon(ev.Fn, ev.Lhs[0]) == "recv.clientID" {
 					c := r.P.Canon(ev.Fn, ev.Rhs[0])
 					seen = true
